@@ -1,1 +1,8 @@
 # CLAIMED[id] = (technique, level text, level note, design ref); NA[id] = reason
+NOTE = ("Trusted base: go/types + go/ssa + x/tools call graph model Go correctly; gothemis and third-party packages are opaque externals; "
+        "each rule is a necessary structural condition of the property, decided for every path/call site/AST type in the current tree, "
+        "not the behavioural statement itself. Known genuine defects listed in /verif/known_findings.json print KNOWN-FINDING and do not fail the check.")
+CLAIMED["C16"] = (
+ "static analysis: switch-exhaustiveness over literal kinds, Format-vs-walkSubtree field coverage over all AST types, interprocedural SSA taint (raw statement text -> logrus sinks), dominance rule for the NotParsedStatement echo",
+ "Decides, for every AST struct type and every logrus call site in the statement-handling packages, that (a) every data-carrying literal kind is converted by the normalizer, (b) every printed sub-node that can hold a literal is walked, (c) no value derived from raw statement text reaches a log call, (d) the redacted text is never the echo of an unparseable statement. These are necessary conditions for 'no literal in logs'; quoting/escaping behaviour of the printer and error-message provenance are not decided.",
+ NOTE, "DESIGN.md §2 C16")
